@@ -1,6 +1,6 @@
 """C08 - failures are AmpycloudError only; guard discipline in front of third-party numerics.
 Totality / termination of pandas, scikit-learn, statsmodels is NOT claimed (not statically decidable)."""
-from sa.rules import exceptions, baseheight
+from sa.rules import exceptions, baseheight, indexing
 
 LEVEL = 'other'
 
@@ -16,6 +16,7 @@ def check(ctx):
     exceptions.okta_is_python_int(ctx, 'C08-R2')
     exceptions.chunk_never_empty(ctx, 'C08-R2')
     exceptions.decorators_pass_through(ctx, 'C08-R3')
+    exceptions.raw_input_validated_first(ctx, 'C08-R4')
+    indexing.data_index_state(ctx, 'C08-R5')
     ctx.undecided += ['termination and totality of the third-party numerics for every accepted input',
-                      'label-based indexing on repeated labels (IndexError) is decided under C10-R1',
                       'whether an assert can fire is a run-time question (asserts are listed as information)']
